@@ -514,39 +514,201 @@ pub fn run(cfg: &RunCfg) -> PropRun {
     run.absorb(out);
     let out = campaign(cfg, ID, "pools", cfg.pick(40_000, 1_200_000), pool_strategy, watched);
     run.absorb(out);
-    // long inputs (10^3..10^6 bytes)
-    let longs: Vec<Vec<String>> = scaling_families()
-        .into_iter()
-        .flat_map(|(_, u, t)| [200usize, 5_000, if cfg.tier == Tier::Thorough { 150_000 } else { 30_000 }].into_iter().map(move |n| vec![format!("{}{}", u.repeat(n), t)]))
-        .collect();
-    let lg = &longs;
-    let out = enumerate(cfg, "long-inputs", move |shard, nsh| (0..lg.len()).filter(move |i| i % nsh == shard).map(move |i| lg[i].clone()), |p: &Vec<String>, st| {
-        // parsers + unary surface only (binary operations on thousands of alternatives are quadratic by nature)
-        for s in p {
-            st.eval(2);
-            match g("Version::parse", &s.len(), || Version::parse(s))? {
-                Ok(v) => exercise_version("long input", &v)?,
-                Err(e) => exercise_error("Version::parse", s, &e)?,
-            }
-            match g("Range::parse", &s.len(), || Range::parse(s))? {
-                Ok(r) => {
-                    g("long range: Display/min_version/satisfies", &s.len(), || {
-                        let _ = r.to_string();
-                        let _ = r.min_version();
-                        let _ = r.satisfies(&Version::from((1u8, 2u8, 3u8)));
-                    })?;
-                }
-                Err(e) => exercise_error("Range::parse", s, &e)?,
-            }
-        }
-        Ok(())
-    });
-    run.absorb(out);
+    risky(&mut run, cfg);
     scaling(&mut run, cfg);
     run
 }
 
+// --- supervised ("risky") cases: each runs in a child process on a 256 KiB stack --------------------
+// A stack overflow or abort cannot be caught in-process; the parent turns a child killed by a signal
+// into a violation with a replayable case.  Long inputs and operands with thousands of alternatives
+// (recursion depth / quadratic blow-up in the number of alternatives) live here.
+
+#[derive(Clone, Debug, serde::Serialize, serde::Deserialize)]
+pub struct Risky {
+    pub kind: String,
+    pub n: usize,
+}
+
+pub fn risky_items(cfg: &RunCfg) -> Vec<Risky> {
+    let mut out = vec![];
+    let big = if cfg.tier == Tier::Thorough { 150_000 } else { 30_000 };
+    for (name, _, _) in scaling_families() {
+        for n in [200usize, 5_000, big] {
+            out.push(Risky { kind: format!("long:{}", name), n });
+        }
+    }
+    let ops_n: Vec<usize> = if cfg.tier == Tier::Thorough { vec![300, 2500, 6000] } else { vec![300, 2500] };
+    for fam in ["desc", "asc", "alternating", "nested", "touching", "dups", "prerelease-desc"] {
+        for n in &ops_n {
+            out.push(Risky { kind: format!("ops:{}", fam), n: *n });
+        }
+    }
+    out
+}
+
+fn big_operand(fam: &str, n: usize) -> String {
+    let mut alts: Vec<String> = vec![];
+    match fam {
+        "desc" => (1..=n).rev().for_each(|k| alts.push(format!("{}.0.0", k))),
+        "asc" => (1..=n).for_each(|k| alts.push(format!("{}.0.0", k))),
+        "alternating" => (1..=n).for_each(|k| alts.push(format!("{}.0.0", if k % 2 == 0 { k } else { 2 * n - k }))),
+        "nested" => (1..=n).for_each(|k| alts.push(format!(">={}.0.0 <{}.0.0", k, 2 * n + 2 - k))),
+        "touching" => (1..=n).for_each(|k| alts.push(format!(">={}.0.0 <{}.0.0", k, k + 1))),
+        "dups" => (1..=n).for_each(|_| alts.push("1.2.3".to_string())),
+        _ => (1..=n).rev().for_each(|k| alts.push(format!(">1.0.0-{} <=1.0.0-{}.5", k, k))),
+    }
+    alts.join("||")
+}
+
+/// the body of one supervised case (runs in the child, on a small stack)
+pub fn risky_body(item: &Risky) -> Result<(), Failure> {
+    if let Some(name) = item.kind.strip_prefix("long:") {
+        let (_, unit, tail) = scaling_families().into_iter().find(|(n, _, _)| *n == name).ok_or_else(|| Failure::new("bad-replay", "unknown family".into()))?;
+        let mut s = if name == "1.2.3-a.a." { "1.2.3-".to_string() } else { String::new() };
+        s.push_str(&unit.repeat(item.n));
+        s.push_str(&tail);
+        match g("Version::parse", &s.len(), || Version::parse(&s))? {
+            Ok(v) => exercise_version("long input", &v)?,
+            Err(e) => exercise_error("Version::parse", &s, &e)?,
+        }
+        match g("Range::parse", &s.len(), || Range::parse(&s))? {
+            Ok(r) => g("long range: Display/min_version/satisfies/clone/==", &s.len(), || {
+                let t = r.to_string();
+                let _ = r.min_version();
+                let _ = r.satisfies(&Version::from((1u8, 2u8, 3u8)));
+                let _ = r.clone() == r;
+                let _ = Range::parse(&t).map(|x| x == r);
+            })?,
+            Err(e) => exercise_error("Range::parse", &s, &e)?,
+        }
+        return Ok(());
+    }
+    let fam = item.kind.strip_prefix("ops:").unwrap_or("desc");
+    let btext = big_operand(fam, item.n);
+    let b = match g("Range::parse(big operand)", &item, || Range::parse(&btext))? {
+        Ok(b) => b,
+        Err(_) => return Ok(()),
+    };
+    let others: Vec<Range> = ["*", ">=2.0.0 <100.0.0", "<=1.0.0-9999", "1.0.0-7.2 || 5000.0.0 || >=3.0.0 <4.0.0-0"].iter().filter_map(|t| Range::parse(t).ok()).chain(std::iter::once(Range::any())).collect();
+    for a in &others {
+        g("operations with a many-alternative operand", &(item, a.to_string()), || {
+            let d1 = a.difference(&b);
+            let d2 = b.difference(a);
+            let i1 = a.intersect(&b);
+            let i2 = b.intersect(a);
+            let _ = (a.allows_all(&b), b.allows_all(a), a.allows_any(&b), b.allows_any(a));
+            for r in [d1, d2, i1, i2].into_iter().flatten() {
+                let _ = r.min_version();
+                let _ = r.to_string().len();
+                let _ = r.satisfies(&Version::from((3u8, 1u8, 4u8)));
+            }
+        })?;
+    }
+    g("unary operations on a many-alternative range", &item, || {
+        let _ = b.min_version();
+        let _ = b.clone() == b;
+        let t = b.to_string();
+        let _ = Range::parse(&t).map(|x| x == b);
+        let list: Vec<Version> = (0..200u64).map(|k| Version::from((k * 31 % 7000, 0u64, 0u64))).collect();
+        let _ = b.max_satisfying(&list).map(|v| v.to_string());
+        let _ = b.min_satisfying(&list).map(|v| v.to_string());
+    })?;
+    Ok(())
+}
+
+/// child entry point: exit 0 fine, 1 panic caught (message on stdout); a crash kills the process
+pub fn risky_child(json: &str) -> i32 {
+    let item: Risky = match serde_json::from_str(json) {
+        Ok(i) => i,
+        Err(_) => return 2,
+    };
+    let h = std::thread::Builder::new().stack_size(256 * 1024).spawn(move || risky_body(&item));
+    match h.map(|h| h.join()) {
+        Ok(Ok(Ok(()))) => 0,
+        Ok(Ok(Err(f))) => {
+            println!("{}", f.message);
+            1
+        }
+        Ok(Err(_)) => {
+            println!("the case panicked outside a guarded call");
+            1
+        }
+        Err(_) => 2,
+    }
+}
+
+/// run one supervised case in a child process; Some(message) = violation, None = fine, Err = inconclusive
+pub fn run_risky_item(item: &Risky) -> Result<Option<String>, String> {
+    use std::os::unix::process::ExitStatusExt;
+    let exe = std::env::current_exe().map_err(|e| e.to_string())?;
+    let js = serde_json::to_string(item).unwrap();
+    let mut child = std::process::Command::new(exe)
+        .args(["c06-risky", &js])
+        .stdout(std::process::Stdio::piped())
+        .stderr(std::process::Stdio::null())
+        .spawn()
+        .map_err(|e| e.to_string())?;
+    let t0 = Instant::now();
+    loop {
+        match child.try_wait().map_err(|e| e.to_string())? {
+            Some(status) => {
+                let mut out = String::new();
+                if let Some(mut so) = child.stdout.take() {
+                    use std::io::Read;
+                    let _ = so.read_to_string(&mut out);
+                }
+                if let Some(sig) = status.signal() {
+                    return Ok(Some(format!("the process was killed by signal {} (stack overflow / abort) on a 256 KiB stack", sig)));
+                }
+                return match status.code() {
+                    Some(0) => Ok(None),
+                    Some(1) => Ok(Some(out.trim().to_string())),
+                    c => Err(format!("child exit code {:?}", c)),
+                };
+            }
+            None => {
+                if t0.elapsed() > Duration::from_secs(240) {
+                    let _ = child.kill();
+                    let _ = child.wait();
+                    return Err(format!("supervised case {:?} exceeded 240 s (possible hang)", item));
+                }
+                std::thread::sleep(Duration::from_millis(20));
+            }
+        }
+    }
+}
+
+pub fn risky(run: &mut PropRun, cfg: &RunCfg) {
+    let items = risky_items(cfg);
+    let ir = &items;
+    let out = enumerate(
+        cfg,
+        "supervised",
+        move |shard, nsh| (0..ir.len()).filter(move |i| i % nsh == shard).map(move |i| ir[i].clone()),
+        |item: &Risky, st| {
+            st.eval(1);
+            st.class(if item.kind.starts_with("long:") { "supervised:long-input" } else { "supervised:many-alternative-operand" });
+            match run_risky_item(item) {
+                Ok(None) => Ok(()),
+                Ok(Some(m)) => Err(Failure::new("crash-or-panic", format!("supervised case {:?}: {}", item, m))),
+                Err(m) => Err(Failure::new("supervised-inconclusive", format!("{} {}", INCONCLUSIVE, m))),
+            }
+        },
+    );
+    run.absorb(out);
+    run.stats.exhaustive_subspaces.push(json!({"name": "supervised cases in child processes (256 KiB stack): long inputs of every scaling family, operands with up to thousands of alternatives in 7 orders", "cases": items.len()}));
+}
+
 pub fn replay(campaign: &str, case: &Value) -> Result<(), Failure> {
+    if campaign == "supervised" {
+        let item: Risky = serde_json::from_value(case.clone()).map_err(|e| Failure::new("bad-replay", e.to_string()))?;
+        return match run_risky_item(&item) {
+            Ok(None) => Ok(()),
+            Ok(Some(m)) => Err(Failure::new("crash-or-panic", format!("supervised case {:?}: {}", item, m))),
+            Err(m) => Err(Failure::new("supervised-inconclusive", format!("{} {}", INCONCLUSIVE, m))),
+        };
+    }
     if campaign == "scaling" {
         return Ok(()); // timing findings are re-measured by a full run, not by replay
     }
